@@ -114,7 +114,7 @@ CONF = {
         "rule": "cases = scenarios drawn from the generators of C01 (concurrent clients, n>q, sync decorators), C15 (render faults at every site), C14 (cancel/Shutdown as a step) and C03 (auto refresh with early refresh, pop, queued bars), each run 1-4 times in a row in one process, followed by a goroutine-dump poll; non-trivial = auto refresh, a fired fault, a cancel or a notifier was involved; distinct by FNV-64 of the scenario JSON",
         "assumptions": GO_ASSUME + SCHED_ASSUME + ["a goroutine counts as leaked when it has a library frame or was created by library code, is blocked, and its stack is unchanged over 400 ms after everything else has finished; runnable leftovers make the case inconclusive", "containers are run one after another (the instrumentation hooks are process-global), not overlapping"],
         "tiers": tiers(8, 800, 16, 12000),
-        "require_classes": ["refresh:autort", "refresh:autoinj", "refresh:manual", "refresh:none", "render-fault", "cancelled", "notifier", "repeated", "concurrent-clients"],
+        "require_classes": ["refresh:autort", "refresh:autoinj", "refresh:manual", "refresh:none", "render-fault", "cancelled", "notifier", "repeated", "concurrent-clients", "narrow-container"],
     },
     "C10": {
         "rule": "cases = concurrent scenarios: 1-3 shared bars, 1-8 client goroutines x up to 16 operations in 1-2 phases (all mutators and getters, priorities, Write, late adds), render cycles from a 1 ms ticker / injected ticks / manual, completion, abort and bar exit anywhere, holds around the bar goroutine's exit; one third of the cases use non-negative increments only (quiescent sum); every case also runs in the -race shards; non-trivial = some bar was operated on by >=3 clients; distinct by FNV-64 of the scenario JSON",
